@@ -12,6 +12,8 @@ import FontVerif.Model.Ivs
 import FontVerif.Model.Metrics
 import FontVerif.Lemmas.Round
 import FontVerif.Lemmas.TentLemmas
+import FontVerif.Lemmas.NormalizeLemmas
+import FontVerif.Lemmas.DeltaLemmas
 set_option linter.unusedVariables false
 namespace FontVerif.C11
 open FontVerif FontVerif.Tent
@@ -239,5 +241,452 @@ theorem ignored_axis_skipped (sc : Int) (a : Int × Int × Int) (rest : List (In
       (Fixed.f2dot14ToFixed p) (Fixed.f2dot14ToFixed e) = some sc := by
     unfold axisStep; unfold Ignored at this; simp [this]
   rw [hstep]
+
+/-! ## 2. axis normalisation (`VariationAxisRecord::normalize`, `Fvar::user_to_normalized`)
+
+All values are raw `Fixed` 16.16 bit patterns (`ONE = 65536`); the F2Dot14 output of
+`user_to_normalized` has `ONE = 16384`.  The laws hold for every `Int`, in particular for every
+i32 bit pattern; the only hypotheses are the ones a law needs to be meaningful (`min < default`
+for "min ↦ −1", etc.). -/
+
+open Normalize
+
+/-- **normalize_range**: the result is always within `[−1, 1]`, for any axis record at all. -/
+theorem normalize_range (minV defV maxV value : Int) :
+    -65536 ≤ normalize minV defV maxV value ∧ normalize minV defV maxV value ≤ 65536 := by
+  rw [normalize_eq]; exact clamp_range (by omega)
+
+/-- **normalize_default**: the default maps to 0 (`min ≤ default ≤ max`). -/
+theorem normalize_default (minV defV maxV : Int) (h1 : minV ≤ defV) (h2 : defV ≤ maxV) :
+    normalize minV defV maxV defV = 0 := by
+  rw [normalize_eq]
+  have e : ¬ maxV < minV := by omega
+  simp only [e, if_false]
+  rw [clamp_id h1 h2, core_eq]; unfold clamp; simp
+
+/-- **normalize_min**: the minimum maps to −1 (whenever `min < default`; any `max`, any
+magnitude — also when `default − min` saturates the i32 subtraction). -/
+theorem normalize_min (minV defV maxV : Int) (h : minV < defV) :
+    normalize minV defV maxV minV = -65536 := by
+  rw [normalize_eq]
+  generalize hM : (if maxV < minV then minV else maxV) = M
+  have hM' : minV ≤ M := by subst hM; split <;> omega
+  rw [clamp_id (by omega) hM']
+  have := core_below (maxV' := M) (Int.le_refl minV) h
+  rw [this.1, divQ_self (satSub_pos h)]; unfold clamp; simp
+
+/-- **normalize_max**: the maximum maps to +1 (whenever `default < max` and `min ≤ max`). -/
+theorem normalize_max (minV defV maxV : Int) (h : defV < maxV) (hm : minV ≤ maxV) :
+    normalize minV defV maxV maxV = 65536 := by
+  rw [normalize_eq]
+  have e : ¬ maxV < minV := by omega
+  simp only [e, if_false]
+  rw [clamp_id hm (Int.le_refl maxV)]
+  have := core_above (minV := minV) (Int.le_refl maxV) h
+  rw [this.1, divQ_self (satSub_pos h)]; unfold clamp; simp
+
+/-- **normalize_clamps (low)**: every value at or below the minimum normalises like the minimum. -/
+theorem normalize_clamps_low (minV defV maxV value : Int) (h : value ≤ minV) :
+    normalize minV defV maxV value = normalize minV defV maxV minV := by
+  rw [normalize_eq, normalize_eq]
+  congr 2
+  unfold clamp; repeat' split
+  all_goals omega
+
+/-- **normalize_clamps (high)**: every value at or above the maximum normalises like the maximum. -/
+theorem normalize_clamps_high (minV defV maxV value : Int) (h : maxV ≤ value) (hm : minV ≤ maxV) :
+    normalize minV defV maxV value = normalize minV defV maxV maxV := by
+  rw [normalize_eq, normalize_eq]
+  congr 2
+  unfold clamp; repeat' split
+  all_goals omega
+
+/-- **normalize_monotone**: non-decreasing in the user coordinate — for every axis record
+(also malformed ones: `max < min`, default outside `[min, max]`). -/
+theorem normalize_monotone (minV defV maxV v1 v2 : Int) (h : v1 ≤ v2) :
+    normalize minV defV maxV v1 ≤ normalize minV defV maxV v2 := by
+  rw [normalize_eq, normalize_eq]
+  generalize hM : (if maxV < minV then minV else maxV) = M
+  have hM' : minV ≤ M := by subst hM; split <;> omega
+  apply clamp_mono _ (by omega)
+  have r1 := clamp_range (v := v1) hM'
+  have r2 := clamp_range (v := v2) hM'
+  exact core_mono r1.1 (clamp_mono h hM') r2.2
+
+/-- **normalize_spec (below default)**: for `min ≤ v < default` the result is
+`−(default − v)/(default − min)` in 16.16, rounded to nearest (no saturation: `default − min < 2³¹`). -/
+theorem normalize_spec_below (minV defV maxV v : Int)
+    (hsat : defV - minV < 2147483648) (h1 : minV ≤ v) (h2 : v < defV) (h3 : defV ≤ maxV) :
+    ∃ q, IsRHA ((defV - v) * 65536) (defV - minV) q ∧ normalize minV defV maxV v = -q := by
+  refine ⟨divQ (defV - v) (defV - minV), divQ_isRHA (by omega) (by omega), ?_⟩
+  rw [normalize_eq]
+  have e : ¬ maxV < minV := by omega
+  simp only [e, if_false]
+  rw [clamp_id h1 (by omega)]
+  have := core_below (maxV' := maxV) h1 h2
+  have s1 : satSub defV v = defV - v := satSub_exact (by omega) (by omega)
+  have s2 : satSub defV minV = defV - minV := satSub_exact (by omega) (by omega)
+  rw [s1, s2] at this
+  rw [this.1]; exact clamp_id (by omega) (by omega)
+
+/-- **normalize_spec (above default)**: for `default < v ≤ max` the result is
+`(v − default)/(max − default)` in 16.16, rounded to nearest. -/
+theorem normalize_spec_above (minV defV maxV v : Int)
+    (hsat : maxV - defV < 2147483648) (h0 : minV ≤ defV) (h1 : defV < v) (h2 : v ≤ maxV) :
+    ∃ q, IsRHA ((v - defV) * 65536) (maxV - defV) q ∧ normalize minV defV maxV v = q := by
+  refine ⟨divQ (v - defV) (maxV - defV), divQ_isRHA (by omega) (by omega), ?_⟩
+  rw [normalize_eq]
+  have e : ¬ maxV < minV := by omega
+  simp only [e, if_false]
+  rw [clamp_id (by omega) h2]
+  have := core_above (minV := minV) h2 h1
+  have s1 : satSub v defV = v - defV := satSub_exact (by omega) (by omega)
+  have s2 : satSub maxV defV = maxV - defV := satSub_exact (by omega) (by omega)
+  rw [s1, s2] at this
+  rw [this.1]; exact clamp_id (by omega) (by omega)
+
+example : normalize (100 * 65536) (400 * 65536) (900 * 65536) (250 * 65536) = -32768 := by decide
+example : normalize (100 * 65536) (400 * 65536) (900 * 65536) (650 * 65536) = 32768 := by decide
+example : normalize (-2147483648) 0 2147483647 (-2147483648) = -65536 := by decide
+
+/-! ## 3. avar segment maps (`SegmentMaps::apply`)
+
+`maps` are the stored F2Dot14 `(from, to)` records; coordinates are `Fixed`.  `to_fixed` is
+`× 4`.  A *valid* map has strictly increasing `from`s (`Before`: and non-decreasing `to`s). -/
+
+/-- all records are F2Dot14 bit patterns. -/
+def MapOk (maps : List (Int × Int)) : Prop := ∀ m ∈ maps, inI16 m.1 ∧ inI16 m.2
+
+/-- **avar_empty_identity**: an empty segment map is the identity. -/
+theorem avar_empty_identity (c : Int) : avarApply [] c = c := avarApply_nil c
+
+/-- **avar_single_identity** (degenerate map): a one-record map changes nothing except its
+own point. -/
+theorem avar_single_identity (f t c : Int) (h : c ≠ Fixed.f2dot14ToFixed f) :
+    avarApply [(f, t)] c = c := by
+  unfold avarApply
+  simp only [List.map_cons, List.map_nil, applyGo]
+  have e1 : ¬ Fixed.f2dot14ToFixed f = c := fun h' => h h'.symm
+  simp only [e1, if_false]
+  split <;> rfl
+
+/-- **avar_outside_identity**: below the first point and above every point the map is the
+identity (no sortedness needed). -/
+theorem avar_outside_identity (maps : List (Int × Int)) (c : Int) :
+    (∀ m, maps.head? = some m → c < Fixed.f2dot14ToFixed m.1) ∨
+    (∀ m ∈ maps, Fixed.f2dot14ToFixed m.1 < c) → avarApply maps c = c := by
+  rintro (h | h)
+  · cases maps with
+    | nil => exact avarApply_nil c
+    | cons m rest => obtain ⟨f, t⟩ := m; exact avarApply_before_first (h (f, t) rfl)
+  · unfold avarApply
+    apply applyGo_beyond
+    intro m hm
+    simp only [List.mem_map] at hm
+    obtain ⟨m0, hm0, rfl⟩ := hm
+    exact h m0 hm0
+
+/-- **avar_hits_point**: every map point is hit exactly — `apply(from_i) = to_i` whenever all
+earlier `from`s are smaller (in particular for every strictly sorted map). -/
+theorem avar_hits_point (maps : List (Int × Int)) (i : Nat) (m : Int × Int)
+    (hget : maps[i]? = some m)
+    (hlt : ∀ j, j < i → ∀ m', maps[j]? = some m' → m'.1 < m.1) :
+    avarApply maps (Fixed.f2dot14ToFixed m.1) = Fixed.f2dot14ToFixed m.2 := by
+  have hget' : (scaled maps)[i]? = some (Fixed.f2dot14ToFixed m.1, Fixed.f2dot14ToFixed m.2) := by
+    unfold scaled; rw [List.getElem?_map, hget]; rfl
+  have hlt' : ∀ j, j < i → ∀ m', (scaled maps)[j]? = some m' →
+      m'.1 < (Fixed.f2dot14ToFixed m.1, Fixed.f2dot14ToFixed m.2).1 := by
+    intro j hj m' hm'
+    unfold scaled at hm'
+    rw [List.getElem?_map] at hm'
+    cases hmj : maps[j]? with
+    | none => rw [hmj] at hm'; simp at hm'
+    | some mj =>
+      rw [hmj] at hm'; simp at hm'; subst hm'
+      have := hlt j hj mj hmj
+      simp only [Fixed.f2dot14ToFixed]; omega
+  exact applyGo_hit (maps := scaled maps) (0, 0) true i
+    (Fixed.f2dot14ToFixed m.1, Fixed.f2dot14ToFixed m.2) hget' hlt'
+
+/-- **avar_interpolates**: strictly between two consecutive points `a`, `b` (all earlier `from`s
+below the coordinate) the result is `a.to + (b.to − a.to)·(c − a.from)/(b.from − a.from)`,
+the quotient rounded to the nearest 16.16 value (ties away from zero) — linear interpolation. -/
+theorem avar_interpolates (maps : List (Int × Int)) (hok : MapOk maps) (i : Nat) (a b : Int × Int)
+    (ha : maps[i]? = some a) (hb : maps[i + 1]? = some b) (c : Int)
+    (hlt : ∀ j, j ≤ i → ∀ m', maps[j]? = some m' → Fixed.f2dot14ToFixed m'.1 < c)
+    (hcb : c < Fixed.f2dot14ToFixed b.1) :
+    ∃ q, IsRHA ((Fixed.f2dot14ToFixed b.2 - Fixed.f2dot14ToFixed a.2) * (c - Fixed.f2dot14ToFixed a.1))
+          (Fixed.f2dot14ToFixed b.1 - Fixed.f2dot14ToFixed a.1) q ∧
+      avarApply maps c = Fixed.f2dot14ToFixed a.2 + q := by
+  have hma : a ∈ maps := List.mem_of_getElem? ha
+  have hmb : b ∈ maps := List.mem_of_getElem? hb
+  have hac : Fixed.f2dot14ToFixed a.1 < c := hlt i (Nat.le_refl i) a ha
+  have iA1 : Tent.inF (Fixed.f2dot14ToFixed a.1) := Tent.inF_of_f2dot14 (hok a hma).1
+  have iA2 : Tent.inF (Fixed.f2dot14ToFixed a.2) := Tent.inF_of_f2dot14 (hok a hma).2
+  have iB1 : Tent.inF (Fixed.f2dot14ToFixed b.1) := Tent.inF_of_f2dot14 (hok b hmb).1
+  have iB2 : Tent.inF (Fixed.f2dot14ToFixed b.2) := Tent.inF_of_f2dot14 (hok b hmb).2
+  have hApp : avarApply maps c = interp (Fixed.f2dot14ToFixed a.1) (Fixed.f2dot14ToFixed a.2)
+      (Fixed.f2dot14ToFixed b.1) (Fixed.f2dot14ToFixed b.2) c := by
+    have e : ∀ (k : Nat) (x : Int × Int), maps[k]? = some x →
+        (scaled maps)[k]? = some (Fixed.f2dot14ToFixed x.1, Fixed.f2dot14ToFixed x.2) := by
+      intro k x hx; unfold scaled; rw [List.getElem?_map, hx]; rfl
+    have hlt' : ∀ j, j ≤ i → ∀ m', (scaled maps)[j]? = some m' → m'.1 < c := by
+      intro j hj m' hm'
+      unfold scaled at hm'
+      rw [List.getElem?_map] at hm'
+      cases hmj : maps[j]? with
+      | none => rw [hmj] at hm'; simp at hm'
+      | some mj => rw [hmj] at hm'; simp at hm'; subst hm'; exact hlt j hj mj hmj
+    have key := applyGo_interp (c := c) (maps := scaled maps) (0, 0) true i
+      (Fixed.f2dot14ToFixed a.1, Fixed.f2dot14ToFixed a.2)
+      (Fixed.f2dot14ToFixed b.1, Fixed.f2dot14ToFixed b.2) (e i a ha) (e (i + 1) b hb) hlt' hcb
+    exact key
+  rw [hApp]
+  clear hApp hlt
+  generalize Fixed.f2dot14ToFixed a.1 = A1 at *
+  generalize Fixed.f2dot14ToFixed a.2 = A2 at *
+  generalize Fixed.f2dot14ToFixed b.1 = B1 at *
+  generalize Fixed.f2dot14ToFixed b.2 = B2 at *
+  have iC : Tent.inF c := by unfold Tent.inF at *; omega
+  have hI := interp_eq iA1 iA2 iB1 iB2 iC (Int.le_of_lt hac) (Int.le_of_lt hcb) (Int.lt_trans hac hcb)
+  have h0 : 0 ≤ c - A1 := by omega
+  have h1 : 0 < B1 - A1 := by omega
+  refine ⟨mdQ (B2 - A2) (c - A1) (B1 - A1), mdQ_isRHA h0 h1, ?_⟩
+  exact hI
+
+/-- **avar_monotone**: if the map is monotone (`from` strictly increasing, `to` non-decreasing)
+then `apply` is non-decreasing on the span of the map (between its first and last `from`). -/
+theorem avar_monotone (maps : List (Int × Int)) (hok : MapOk maps) (hs : maps.Pairwise Before)
+    (c1 c2 : Int) (h12 : c1 ≤ c2) (hlo : ∃ m ∈ maps, Fixed.f2dot14ToFixed m.1 ≤ c1)
+    (hhi : ∃ m ∈ maps, c2 ≤ Fixed.f2dot14ToFixed m.1) :
+    avarApply maps c1 ≤ avarApply maps c2 :=
+  avarApply_mono_core hok hs h12 hlo hhi
+
+/-- the map contains the three records the OpenType specification requires. -/
+def HasRequired (maps : List (Int × Int)) : Prop :=
+  (-16384, -16384) ∈ maps ∧ ((0 : Int), (0 : Int)) ∈ maps ∧ ((16384 : Int), (16384 : Int)) ∈ maps
+
+theorem before_strict {maps : List (Int × Int)} (hs : maps.Pairwise Before) :
+    maps.Pairwise (fun a b => a.1 < b.1) := hs.imp (fun h => h.1)
+
+/-- **avar_valid_monotone_range**: a valid monotone map (with the required −1, 0, 1 records) is
+monotone on all of `[−1, 1]`, keeps −1, 0, 1 fixed, and stays within `[−1, 1]`. -/
+theorem avar_valid_monotone_range (maps : List (Int × Int)) (hok : MapOk maps)
+    (hs : maps.Pairwise Before) (hr : HasRequired maps) :
+    avarApply maps (-65536) = -65536 ∧ avarApply maps 0 = 0 ∧ avarApply maps 65536 = 65536 ∧
+    (∀ c1 c2, -65536 ≤ c1 → c1 ≤ c2 → c2 ≤ 65536 → avarApply maps c1 ≤ avarApply maps c2) ∧
+    (∀ c, -65536 ≤ c → c ≤ 65536 → -65536 ≤ avarApply maps c ∧ avarApply maps c ≤ 65536) := by
+  have hA := avarApply_hit_mem (before_strict hs) hr.1
+  have hB := avarApply_hit_mem (before_strict hs) hr.2.1
+  have hC := avarApply_hit_mem (before_strict hs) hr.2.2
+  simp only [Fixed.f2dot14ToFixed] at hA hB hC
+  have hmono : ∀ c1 c2, -65536 ≤ c1 → c1 ≤ c2 → c2 ≤ 65536 → avarApply maps c1 ≤ avarApply maps c2 := by
+    intro c1 c2 h1 h12 h2
+    exact avarApply_mono_core hok hs h12 ⟨_, hr.1, by simp [Fixed.f2dot14ToFixed]; omega⟩
+      ⟨_, hr.2.2, by simp [Fixed.f2dot14ToFixed]; omega⟩
+  refine ⟨by simpa using hA, by simpa using hB, by simpa using hC, hmono, ?_⟩
+  intro c h1 h2
+  have := hmono (-65536) c (by omega) h1 h2
+  have := hmono c 65536 h1 h2 (by omega)
+  simp at hA hC
+  omega
+
+example : avarApply [(-16384, -16384), (0, 0), (8192, 4096), (16384, 16384)] 16384 = 8192 := by decide
+example : avarApply [(-16384, -16384), (0, 0), (8192, 4096), (16384, 16384)] 49152 = 40960 := by decide
+example : ([(-16384, -16384), (0, 0), (8192, 4096), (16384, 16384)] : List (Int × Int)).Pairwise Before := by
+  unfold Before; decide
+
+/-! ### the whole per-axis step of `Fvar::user_to_normalized` (normalize → avar → F2Dot14) -/
+
+/-- **user_to_normalized (no avar)**: min ↦ −1, default ↦ 0, max ↦ 1 (F2Dot14 `ONE = 16384`),
+range `[−1, 1]`, monotone. -/
+theorem user_to_normalized_laws (minV defV maxV : Int) :
+    (minV < defV → userToNormalized minV defV maxV none minV = -16384) ∧
+    (minV ≤ defV → defV ≤ maxV → userToNormalized minV defV maxV none defV = 0) ∧
+    (defV < maxV → minV ≤ maxV → userToNormalized minV defV maxV none maxV = 16384) ∧
+    (∀ v, -16384 ≤ userToNormalized minV defV maxV none v ∧
+          userToNormalized minV defV maxV none v ≤ 16384) ∧
+    (∀ v1 v2, v1 ≤ v2 → userToNormalized minV defV maxV none v1 ≤
+          userToNormalized minV defV maxV none v2) := by
+  unfold userToNormalized
+  refine ⟨fun h => ?_, fun h1 h2 => ?_, fun h1 h2 => ?_, fun v => ?_, fun v1 v2 h => ?_⟩
+  · simp only [normalize_min minV defV maxV h]; decide
+  · simp only [normalize_default minV defV maxV h1 h2]; decide
+  · simp only [normalize_max minV defV maxV h1 h2]; decide
+  · have := normalize_range minV defV maxV v
+    simp only []
+    rw [toF2Dot14_small this.1 this.2]; omega
+  · have r1 := normalize_range minV defV maxV v1
+    have r2 := normalize_range minV defV maxV v2
+    have := normalize_monotone minV defV maxV v1 v2 h
+    simp only []
+    rw [toF2Dot14_small r1.1 r1.2, toF2Dot14_small r2.1 r2.2]; omega
+
+/-- **user_to_normalized (with a valid avar map)**: the same laws survive a valid monotone
+segment map. -/
+theorem user_to_normalized_avar_laws (minV defV maxV : Int) (maps : List (Int × Int))
+    (hok : MapOk maps) (hs : maps.Pairwise Before) (hr : HasRequired maps) :
+    (minV < defV → userToNormalized minV defV maxV (some maps) minV = -16384) ∧
+    (minV ≤ defV → defV ≤ maxV → userToNormalized minV defV maxV (some maps) defV = 0) ∧
+    (defV < maxV → minV ≤ maxV → userToNormalized minV defV maxV (some maps) maxV = 16384) ∧
+    (∀ v, -16384 ≤ userToNormalized minV defV maxV (some maps) v ∧
+          userToNormalized minV defV maxV (some maps) v ≤ 16384) ∧
+    (∀ v1 v2, v1 ≤ v2 → userToNormalized minV defV maxV (some maps) v1 ≤
+          userToNormalized minV defV maxV (some maps) v2) := by
+  obtain ⟨hA, hB, hC, hmono, hrange⟩ := avar_valid_monotone_range maps hok hs hr
+  unfold userToNormalized
+  refine ⟨fun h => ?_, fun h1 h2 => ?_, fun h1 h2 => ?_, fun v => ?_, fun v1 v2 h => ?_⟩
+  · simp only [normalize_min minV defV maxV h, hA]; decide
+  · simp only [normalize_default minV defV maxV h1 h2, hB]; decide
+  · simp only [normalize_max minV defV maxV h1 h2, hC]; decide
+  · have := normalize_range minV defV maxV v
+    have := hrange _ this.1 this.2
+    simp only []
+    rw [toF2Dot14_small this.1 this.2]; omega
+  · have r1 := normalize_range minV defV maxV v1
+    have r2 := normalize_range minV defV maxV v2
+    have a1 := hrange _ r1.1 r1.2
+    have a2 := hrange _ r2.1 r2.2
+    have := hmono _ _ r1.1 (normalize_monotone minV defV maxV v1 v2 h) r2.2
+    simp only []
+    rw [toF2Dot14_small a1.1 a1.2, toF2Dot14_small a2.1 a2.2]; omega
+
+/-! ## 4. `ItemVariationStore::compute_delta` = Σ_regions scalar × delta, rounded
+
+`specSum regions coords deltas regionIndexes = Σ_i deltas[i] · computeScalar(regions[ri_i], coords)`
+with the scalar as raw 16.16 bits (Section 1 proves that scalar is the specified tent).  The code
+accumulates in i64 and finishes with `((accum + 0x8000) >> 16) as i32`. -/
+
+/-- the row the reader decodes for `inner` in subtable `st` (`ItemVariationData::delta_set`). -/
+def decodedRow (st : SubTable) (inner : Nat) : List Int :=
+  deltaSet st.wordDeltaCount st.regionIndexes.length
+    (st.data.take (deltaRowLen st.wordDeltaCount st.regionIndexes.length * st.itemCount)) inner
+
+/-- **compute_delta_spec**: whenever `compute_delta` returns `Ok(v)` on a present subtable,
+`v` is the weighted sum of the decoded row's deltas with their regions' tent scalars, divided by
+2¹⁶ and rounded to nearest (ties up), then truncated to i32 exactly as `as i32` does. -/
+theorem compute_delta_spec (regions : List (List (Int × Int × Int)))
+    (subtables : List (Option SubTable)) (outer inner : Nat) (coords : List Int) (st : SubTable)
+    (v : Int) (hne : coords ≠ []) (hst : subtables[outer]? = some (some st))
+    (h : computeDelta regions subtables outer inner coords = .ok v) :
+    v = wrapI32 ((specSum regions coords (decodedRow st inner) st.regionIndexes + 32768) / 65536) ∧
+    LoopOk regions (decodedRow st inner) st.regionIndexes := by
+  unfold computeDelta at h
+  have e : coords.isEmpty = false := by cases coords <;> simp_all
+  simp only [e, Bool.false_eq_true, if_false, hst] at h
+  split at h
+  · cases h
+  · have hs := deltaLoop_spec regions coords (decodedRow st inner) st.regionIndexes 0
+    by_cases hok : LoopOk regions (decodedRow st inner) st.regionIndexes
+    · have := hs.1 hok
+      unfold decodedRow at this
+      rw [this] at h
+      simp only [DeltaResult.ok.injEq] at h
+      refine ⟨?_, hok⟩
+      rw [← h]; unfold roundAccum; simp [decodedRow]
+    · have := hs.2 hok
+      unfold decodedRow at this
+      rw [this] at h
+      cases h
+
+/-- **compute_delta_total**: the call succeeds whenever the table is well-formed (subtable
+present, delta-set array inside the data, every decoded delta has a region index that names a
+region) — and the error cases are exactly the complement. -/
+theorem compute_delta_ok_iff (regions : List (List (Int × Int × Int)))
+    (subtables : List (Option SubTable)) (outer inner : Nat) (coords : List Int) (st : SubTable)
+    (hne : coords ≠ []) (hst : subtables[outer]? = some (some st)) :
+    (∃ v, computeDelta regions subtables outer inner coords = .ok v) ↔
+      (deltaRowLen st.wordDeltaCount st.regionIndexes.length * st.itemCount ≤ st.data.length ∧
+       LoopOk regions (decodedRow st inner) st.regionIndexes) := by
+  unfold computeDelta
+  have e : coords.isEmpty = false := by cases coords <;> simp_all
+  simp only [e, Bool.false_eq_true, if_false, hst]
+  have hs := deltaLoop_spec regions coords (decodedRow st inner) st.regionIndexes 0
+  unfold decodedRow at hs
+  by_cases hlen : st.data.length < deltaRowLen st.wordDeltaCount st.regionIndexes.length * st.itemCount
+  · simp [hlen]; omega
+  · by_cases hok : LoopOk regions (decodedRow st inner) st.regionIndexes
+    · have := hs.1 hok
+      simp only [decodedRow] at hok
+      simp [hlen, this, hok, decodedRow]; omega
+    · have := hs.2 hok
+      simp only [decodedRow] at hok
+      simp [hlen, this, hok, decodedRow]
+
+/-- **round_spec**: the final shift is round-to-nearest of `Σ / 2¹⁶` (ties towards +∞):
+`|v − Σ/2¹⁶| ≤ 1/2`. -/
+theorem compute_delta_round_spec (acc : Int) :
+    65536 * ((acc + 32768) / 65536) - 32768 ≤ acc ∧
+    acc < 65536 * ((acc + 32768) / 65536) + 32768 := round_shift_spec acc
+
+/-- **accumulator_fits_i64**: for table bytes (`< 256`) and F2Dot14 regions/coordinates, every
+partial sum of the loop fits i64 (at most 65535 region indexes of i32 deltas × scalar ≤ 2¹⁶) —
+the `Int` accumulator of the model is the i64 accumulator of the code, and the overflow-checked
+`accum +=` never traps. -/
+theorem accumulator_fits_i64 (regions : List (List (Int × Int × Int))) (coords : List Int)
+    (st : SubTable) (inner : Nat) (hr : AllAxesOk regions) (hc : CoordsOk coords)
+    (hb : ∀ b ∈ st.data, b < 256) (hn : st.regionIndexes.length ≤ 65535) (k : Nat) :
+    inI64 (specSum regions coords ((decodedRow st inner).take k) st.regionIndexes) := by
+  have hrow := deltaSet_inI32 st.wordDeltaCount st.regionIndexes.length
+    (st.data.take (deltaRowLen st.wordDeltaCount st.regionIndexes.length * st.itemCount)) inner
+    (fun b hbm => hb b (List.mem_of_mem_take hbm))
+  have hsc : ∀ ri, 0 ≤ computeScalar (regions.getD ri []) coords ∧
+      computeScalar (regions.getD ri []) coords ≤ 65536 := by
+    intro ri
+    apply scalar_range _ _ _ hc
+    intro a ha
+    by_cases h : ri < regions.length
+    · have e : regions.getD ri [] = regions[ri] := by simp [List.getD, List.getElem?_eq_getElem h]
+      rw [e] at ha
+      exact hr _ (List.getElem_mem h) a ha
+    · have e : regions.getD ri [] = [] := by
+        simp [List.getD, List.getElem?_eq_none (by omega : regions.length ≤ ri)]
+      rw [e] at ha; simp at ha
+  have hbound := specSum_bound regions coords 2147483648 (by omega) hsc
+    ((decodedRow st inner).take k) st.regionIndexes
+    (fun d hd => by have := hrow.1 d (List.mem_of_mem_take hd); unfold inI32 at this; omega)
+  have hlen : (((decodedRow st inner).take k).length : Int) ≤ 65535 := by
+    have : ((decodedRow st inner).take k).length ≤ (decodedRow st inner).length := by
+      simp [List.length_take]; omega
+    have := hrow.2
+    unfold decodedRow at *
+    omega
+  generalize (((decodedRow st inner).take k).length : Int) = n at *
+  unfold inI64
+  omega
+
+/-- **compute_delta_16bit_exact**: with 16-bit deltas (no `LONG_WORDS`) nothing wraps: the
+result is exactly `⌊(Σ + 2¹⁵) / 2¹⁶⌋`. -/
+theorem compute_delta_no_wrap (regions : List (List (Int × Int × Int))) (coords : List Int)
+    (deltas : List Int) (ris : List Nat) (hr : AllAxesOk regions) (hc : CoordsOk coords)
+    (hd : ∀ d ∈ deltas, inI16 d) (hn : deltas.length ≤ 65535) :
+    roundAccum (specSum regions coords deltas ris) =
+      (specSum regions coords deltas ris + 32768) / 65536 := by
+  have hsc : ∀ ri, 0 ≤ computeScalar (regions.getD ri []) coords ∧
+      computeScalar (regions.getD ri []) coords ≤ 65536 := by
+    intro ri
+    apply scalar_range _ _ _ hc
+    intro a ha
+    by_cases h : ri < regions.length
+    · have e : regions.getD ri [] = regions[ri] := by simp [List.getD, List.getElem?_eq_getElem h]
+      rw [e] at ha
+      exact hr _ (List.getElem_mem h) a ha
+    · have e : regions.getD ri [] = [] := by
+        simp [List.getD, List.getElem?_eq_none (by omega : regions.length ≤ ri)]
+      rw [e] at ha; simp at ha
+  have hbound := specSum_bound regions coords 32768 (by omega) hsc deltas ris
+    (fun d hdm => by have := hd d hdm; unfold inI16 at this; omega)
+  have hlen : (deltas.length : Int) ≤ 65535 := by omega
+  generalize (deltas.length : Int) = n at *
+  apply roundAccum_nowrap <;> omega
+
+example : computeDelta [[(0, 16384, 16384)], [(-16384, -16384, 0)]]
+    [some { itemCount := 1, wordDeltaCount := 1, regionIndexes := [0, 1], data := [0, 100, 0xF6] }]
+    0 0 [8192] = .ok 50 := by
+  simp [computeDelta, deltaRowLen, deltaSet, itemDeltas, readW, colWidth, readS1, readS2, deltaLoop,
+    computeScalar, computeScalarGo, axisStep, Fixed.f2dot14ToFixed, roundAccum]
+  decide
+example : specSum [[(0, 16384, 16384)], [(-16384, -16384, 0)]] [8192] [100, -10] [0, 1] = 100 * 32768 := by
+  decide
 
 end FontVerif.C11
